@@ -157,4 +157,8 @@ def run(ctx):
                    name, sorted(m)), b.where)
     ctx.floor("R06b", "functions mentioning concrete storage types outside storage/*", len(offenders), 7)
     mirror_rule(ctx, "R05d")
+    # the file-only variant reads through one shared OS handle: without the cursor discipline its results diverge
+    # from the other variants as soon as two readers overlap (R23b)
+    from rules import C23
+    C23.cursor_rule(ctx)
     return 0
